@@ -251,7 +251,7 @@ def repairDna (a : Acc) (dna : List Char) (start : Int) (k : Nat) (chk : Option 
     let checked ← cands.mapM fun c => (vtMatches c chk).map fun b => (c, b)
     let kept := (checked.filter (·.2)).map (·.1)
     let flag := checked.any (fun cb => !cb.2)
-    pure ((kept.eraseDups).mergeSort strLe, ⟨st.detected, flag, count, visited⟩)
+    pure (isort strLe kept.eraseDups, ⟨st.detected, flag, count, visited⟩)
 
 /-! ## graph generation -/
 
